@@ -61,7 +61,7 @@ class Core(object):
     """Behaviour shared by the sync and the async in-memory transport."""
 
     def __init__(self, sim, clock, monitor=None, frag="whole", empty_rate=0.0, rng=None, writecap=None, faults=None,
-                 refuse_connect=None, budget=None, stall=None, frag_offsets=None, timeouts_cost_time=True, call_cost=None):
+                 refuse_connect=None, budget=None, stall=None, frag_offsets=None, timeouts_cost_time=True, call_cost=None, write_cost=None):
         self.sim = sim
         self.clock = clock
         self.monitor = monitor
@@ -75,6 +75,7 @@ class Core(object):
         self.budget = budget              # max transport calls between reset_budget() calls
         self.stall = stall                # None | 'eof' : nothing to read -> b'' instead of a timeout
         self.timeouts_cost_time = timeouts_cost_time  # False: a read that times out does not advance the virtual clock (C06: keeps a known finding's 10 s stall from hitting bystanders)
+        self.write_cost = write_cost      # None | callable(nbytes_offered) -> virtual seconds this bulk_write takes (a congested link)
         self.call_cost = call_cost        # virtual seconds per transport call (a slow link); default CALL_DT
         self.frag_offsets = frag_offsets  # optional set of stream offsets (device byte stream) at which reads are cut
         self.ncalls = 0
@@ -167,6 +168,8 @@ class Core(object):
             cap = self.writecap(self.write_calls, n, self.rng) if callable(self.writecap) else self.writecap
             n = max(0, min(n, cap))
         self.write_calls += 1
+        if self.write_cost is not None:
+            self.clock.advance(self.write_cost(len(data)))
         if n == 0 and len(data):
             # a write that accepts nothing is a write that waited for buffer space in vain
             self.clock.advance(0.05)
